@@ -9,7 +9,13 @@
    (11 t kind) Box<S> / &mut S / erased again / RecordTensor / &S (kind 0..4; below a kind-4 wrapper
    everything is read-only: Box<dyn TensorRef> sources, no writes) | (12 id rows cols n0 n1)
    matrix-backed; stack / chain over an EMPTY array of sources is a constructor panic;
-   params = (0 strict ((name start len)..)) | (1 strict (()|((start len))..)).
+   params = (0 strict ((name start len)..)) | (1 strict (()|((start len))..));
+   (tag t args via) for tag 1..8 = the convenience constructor of Tensor / TensorView for that adaptor
+   (via 1 TensorView::xxx_owned, 2 xxx_mut, 3 xxx(&self) [read-only above], 4 Tensor::xxx(&self),
+   5 Tensor::xxx_mut; 4 / 5 directly over a leaf).
+   (2 4 shape layout names req): a user-implemented source with an arbitrary data_layout claim under
+   TensorRename / TensorTranspose / from_memory_order (panic paths guarding contract clause 5);
+   (2 5 term n0 n1 probes): a 2-D view through MatrixRefTensor and TensorRefMatrix::with_names.
    Exhaustive part: every single adaptor over every shape with D<=2 (lengths<=3) and every
    parameter from the boundary alphabet {0,1,2,3,4,MAX} (reduced alphabet for D=3), every probe in
    {0..len+1, MAX-1, MAX}^D; all depth-2 compositions over a reduced alphabet; random terms to
@@ -276,7 +282,28 @@ def is_shared(t):
         return False
     if t[0] in (9, 10):
         return any(is_shared(x) for x in t[1])
-    return (t[0] == 11 and t[2] == 4) or is_shared(t[1])
+    if t[0] == 11 and t[2] == 4:
+        return True
+    if 1 <= t[0] <= 8 and len(t) == 4 and t[3] in (3, 4):     # TensorView::xxx(&self) / Tensor::xxx(&self)
+        return True
+    return is_shared(t[1])
+
+
+def via_variants(t):
+    """the convenience-constructor forms of a plain single-source adaptor term (tag t args) ->
+    (tag t args via): via 1 = TensorView::xxx_owned, 2 = xxx_mut, 3 = xxx(&self); over a leaf also
+    4 = Tensor::xxx(&self), 5 = Tensor::xxx_mut"""
+    tag = t[0]
+    if not (1 <= tag <= 8) or len(t) != 3:
+        return []
+    if tag in (1, 2) and not (t[2][0] == 0 and t[2][1] == 0 and len(t[2][2]) <= 7):
+        return []
+    if tag in (3, 4) and len(t[2]) != 1:
+        return []
+    vias = [3] if tag in (5, 8) else [1, 2, 3]
+    if t[1][0] == 0:
+        vias += [4] if tag in (5, 8) else [4, 5]
+    return [t + [v] for v in vias]
 
 
 def unify_families(t):
@@ -477,6 +504,16 @@ def shapes_upto(D, maxlen):
 # ---------------------------------------------------------------- random terms
 
 def random_term(rng, depth, next_id, want_d=None):
+    """a mostly valid random term; unary adaptors sometimes go through a convenience constructor"""
+    t = random_term0(rng, depth, next_id, want_d)
+    if rng.random() < 0.2:
+        vs = via_variants(t)
+        if vs:
+            return rng.choice(vs)
+    return t
+
+
+def random_term0(rng, depth, next_id, want_d=None):
     """a mostly valid random term of the given depth; next_id is a 1-element list counter"""
     if depth == 0:
         i = next_id[0]
@@ -732,6 +769,67 @@ def mutation_cases(rng, quick):
                     yield sx([2, 3, t, bad, [[0] * D], []])
 
 
+# ---------------------------------------------------------------- foreign sources (op 4), matrix trip (op 5)
+
+def foreign_cases(rng, quick):
+    """(2 4 shape layout names req): a user-implemented source claiming ANY layout (all D-tuples over
+    the shape's names plus a foreign one, NonLinear, Other), under TensorRename / TensorTranspose /
+    TensorAccess::from_memory_order"""
+    for D in range(0, 4):
+        for lens in shapes_upto(D, 2):
+            for names in ([list(range(D))] + ([rng.sample(range(6), D)] if D else [])):
+                shape = [[n, l] for n, l in zip(names, lens)]
+                alphabet = names + [FOREIGN]
+                orders = [list(o) for o in itertools.product(alphabet, repeat=D)]
+                if len(orders) > (40 if quick else 400):
+                    perms = [list(p) for p in itertools.permutations(names)]
+                    orders = perms + rng.sample(orders, (40 if quick else 400) - len(perms))
+                layouts = [[0, o] for o in orders] + [[1], [2]]
+                renames = [[n + 10 for n in names], names[1:] + names[:1]]
+                if D >= 2:
+                    renames.append([names[0]] * D)
+                reqs = [list(p) for p in itertools.permutations(names)]
+                if D >= 1:
+                    reqs.append([FOREIGN] + names[1:])
+                if D >= 2:
+                    reqs.append([names[0]] * D)
+                for lay in layouts:
+                    for rn in renames:
+                        for rq in (reqs if len(reqs) <= 4 else rng.sample(reqs, 4)):
+                            yield sx([2, 4, shape, lay, rn, rq])
+
+
+def trip_cases(rng, quick):
+    """(2 5 term n0 n1 probes): every kind of 2-dimensional view (all three layouts, both Linear
+    orders) through MatrixRefTensor and back through TensorRefMatrix::with_names"""
+    terms = []
+    for lens in ([1, 1], [2, 3], [3, 2], [2, 2]):
+        for names in ([0, 1], [4, 2]):
+            b = leaf(1, lens, names)
+            terms += [b, [7, b, names[::-1]], [7, b, names], [8, b, names[::-1]], [5, b, [7, 8]], [5, [7, b, names[::-1]], [7, 8]],
+                      [6, b, [names[0]]], [6, b, []], [1, b, [1, 0, [[], []]]], [2, b, [0, 0, []]], [11, b, 0], [11, b, 3], [11, b, 4],
+                      [11, [7, b, names[::-1]], 4], [8, [7, b, names[::-1]], names], [7, [7, b, names[::-1]], names],
+                      [7, b, names[::-1], 3], [8, b, names[::-1], 4], [5, b, [7, 8], 3]]
+        terms.append([9, [leaf(1, [lens[1]], [3]), leaf(2, [lens[1]], [3])][:max(1, min(2, lens[0]))], 0, 5, 0])
+        terms.append([3, leaf(1, lens + [2]), [[2, 1]]])
+        terms.append([4, leaf(1, [lens[0]], [0]), [[1, 6]]])
+        terms.append([12, 1, lens[0], lens[1], 0, 1])
+        terms.append([7, [12, 1, lens[0], lens[1], 0, 1], [1, 0]])
+    for _ in range(300 if quick else 3000):
+        t = random_term(rng, rng.choice([1, 2, 2, 3]), [1], want_d=2)
+        terms.append(t)
+    for t in terms:
+        if not well_typed(t):
+            continue
+        t = renumber(unify_families(t), [0])
+        sh = pshape(t)
+        if pdims(t) != 2:
+            continue
+        for n0, n1 in ((5, 6), (1, 0), (3, 3)) if sh is not None else ((5, 6),):
+            probes = probes_for(sh, rng, cap=40) if sh is not None else [[0, 0]]
+            yield sx([2, 5, t, n0, n1, probes])
+
+
 # ---------------------------------------------------------------- the generator
 
 def gen(tier, rng):
@@ -753,6 +851,15 @@ def gen(tier, rng):
                 c = case(t, rng)
                 if c:
                     yield c
+                vs = via_variants(t)
+                if vs and t[0] in (1, 2):
+                    vs = [v for v in vs if rng.random() < (0.12 if D <= 1 else 0.04)]
+                elif vs and t[0] == 3:
+                    vs = [v for v in vs if rng.random() < 0.5]
+                for tv in vs:
+                    c = case(tv, rng, full=(D <= 2))
+                    if c:
+                        yield c
             others = [leaf(2, [l + 1 if k == 0 else l for k, l in enumerate(lens)]),
                       leaf(2, lens, list(range(1, D + 1))),
                       leaf(2, lens + [2])]
@@ -811,6 +918,11 @@ def gen(tier, rng):
                     c = case(o, rng, full=False)
                     if c:
                         yield c
+                    for ov in via_variants(o):
+                        if rng.random() < 0.3:
+                            c = case(ov, rng, full=False)
+                            if c:
+                                yield c
     # 3. random terms to depth 6
     n_random = 9000 if quick else 150000
     for k in range(n_random):
@@ -874,6 +986,11 @@ def gen(tier, rng):
                     c = case(o, rng, full=(kind != 4))
                     if c:
                         yield c
+                    for ov in via_variants(o):
+                        if rng.random() < 0.25:
+                            c = case(ov, rng, full=False)
+                            if c:
+                                yield c
                     # and one more adaptor on top of that
                     so = pshape(o) if well_typed(o) else None
                     if so is not None and rng.random() < 0.3:
@@ -884,6 +1001,11 @@ def gen(tier, rng):
                                 yield c
     # 8. source mutation through source_ref_mut(), op 3
     for c in mutation_cases(rng, quick):
+        yield c
+    # 9. sources outside the algebra with arbitrary layout claims (op 4); matrix round trips (op 5)
+    for c in foreign_cases(rng, quick):
+        yield c
+    for c in trip_cases(rng, quick):
         yield c
     # 6. static (non-erased) compositions, op 2
     for t in static_terms(rng, 2500 if quick else 25000):
@@ -907,13 +1029,18 @@ def gen(tier, rng):
                     c = case(o, rng, full=False)
                     if c:
                         yield c
+                    for ov in via_variants(o):
+                        if rng.random() < 0.4:
+                            c = case(ov, rng, full=False)
+                            if c:
+                                yield c
 
 
 def nontrivial(case_line, model_out):
     """the view was constructed and observed (shape, layout, probes, iteration, memory-order walk,
     writes + leaf dump), or some constructor of the term rejected its arguments (error payload /
     panic); every generated case is one of the two"""
-    if model_out.startswith("(0 ("):
+    if model_out.startswith("(0 (") or case_line.startswith("(2 4 "):
         return True
     return model_out.startswith("(1") or model_out.startswith("(2")
 
@@ -924,6 +1051,10 @@ def distribution(lines):
     for ln in lines:
         if ln.startswith("(2 3 ("):
             kinds["source_mutation"] = kinds.get("source_mutation", 0) + 1
+        if ln.startswith("(2 4 ("):
+            kinds["foreign_layout"] = kinds.get("foreign_layout", 0) + 1
+        if ln.startswith("(2 5 ("):
+            kinds["matrix_trip"] = kinds.get("matrix_trip", 0) + 1
         if not (ln.startswith("(2 1 (") or ln.startswith("(2 2 (")):
             continue
         if ln.startswith("(2 2 ("):
